@@ -259,6 +259,41 @@ impl Srv {
                     Err(e) => err_json(&e),
                 }
             }
+            "crash" => {
+                // the process dies: nothing is flushed or shut down; then the surviving files lose the given tails
+                for (_, c) in self.clients.drain() {
+                    let _ = c.disconnect().await;
+                }
+                let mut applied = vec![];
+                for cut in op["cuts"].as_array().map(|a| a.as_slice()).unwrap_or(&[]) {
+                    let path = self.dir.join(s(cut, "path"));
+                    match cut.get("len").and_then(|v| v.as_u64()) {
+                        Some(n) => {
+                            if let Ok(f) = std::fs::OpenOptions::new().write(true).open(&path) {
+                                let before = f.metadata().map(|m| m.len()).unwrap_or(0);
+                                let _ = f.set_len(n.min(before));
+                                applied.push(json!([s(cut, "path"), before, n.min(before)]));
+                            }
+                        }
+                        None => {
+                            let _ = std::fs::remove_file(&path);
+                            applied.push(json!([s(cut, "path"), null, null]));
+                        }
+                    }
+                }
+                match start_system(self.config.clone()).await {
+                    Ok((shared, addr)) => {
+                        self.shared = shared;
+                        self.addr = addr;
+                        json!({"r": "ok", "applied": applied})
+                    }
+                    Err(e) => {
+                        let mut v = err_json(&e);
+                        v["applied"] = json!(applied);
+                        v
+                    }
+                }
+            }
             "save" => match self.shared.read().await.persist_messages().await {
                 Ok(n) => json!({"r": "ok", "n": n}),
                 Err(e) => err_json(&e),
